@@ -7,10 +7,13 @@ NOTE = ("Trusted base: Coq 8.16.1 kernel (vm_compute, no native_compute), no axi
         "by the correspondence streams (differential testing), generated Gen/*.v by the translator.")
 CLAIMS = {
  'C08': dict(
-   text="Machine-checked theorems (Props/C08.v): 4&4, 5&3 and 6&2 sector codecs round-trip for EVERY 256-byte content incl. checksum, over the nibble tables "
-        "regenerated from disk525.rs on every run (table injectivity/MSB/reserved-byte facts re-proved each run). Tie: whole-track buffers of NIB/WOZ1/WOZ2 after "
-        "arbitrary writes must equal the model's rendering bit for bit; impl-side oracle runs read-after-write / non-interference / invalid-address sequences in every "
-        "address space of every container. Flat-store and 3.5in theorems are being added; the formatted-track search (find_sector) is tied by correspondence only.",
+   text="Machine-checked theorems (Props/C08.v): 4&4, 5&3 and 6&2 sector codecs round-trip for EVERY 256-byte content incl. checksum, and the 3.5 inch codec "
+        "(three rotating checksums, 6&2 packing, 703 nibbles) for EVERY 524-byte content, over the nibble tables and layout constants regenerated from disk525.rs / disk35.rs "
+        "on every run (table injectivity/MSB/reserved-byte facts re-proved each run); a write to a formatted 5.25 or 3.5 inch track replaces the data field of the one "
+        "position carrying the sector number and no other bit, a sector number not on the track changes nothing, the 3.5 inch layout uses exactly the zone's bit count. "
+        "Tie: whole-track buffers of NIB/WOZ1/WOZ2 (5.25) and WOZ2 400K/800K (every zone) after arbitrary writes must equal the model's rendering bit for bit, the data-field "
+        "nibbles and decode outcomes of 3.5 inch sectors must equal the extracted codec; impl-side oracle runs read-after-write / non-interference / invalid-address sequences "
+        "in every address space of every container. The soft-latch search over the bit stream (find_sector) is tied by correspondence only.",
    technique="Coq proof (codec round trips, generated tables) + translator tie + extracted-model differential correspondence + implementation-side oracle search",
    design_ref="DESIGN.md section 5 C08"),
 }
